@@ -319,6 +319,118 @@ def c03(tier, seed):
                              tx("fpool", "send_token", "stranger", dict(amount=10, recipient="stranger"))]))
     return out
 
+# ------------------------------------------------------------------------------------------------
+def c05(tier, seed):
+    """leverage at and around 1 and 1/initial-margin-ratio (non-integer included), maintenance < initial"""
+    out = []
+    k = 0
+    for coll in ("cw20", "native"):
+        native = coll == "native"
+        for (imr, mmr) in ((5, 5), (5, 3), (10, 5), (20, 3), (100, 0), (3, 3), (7, 2)):
+            lim = D * D // imr if imr else 10 ** 6
+            levs = sorted(set([1, D - 1, D, D + 1, 150, lim - 1, lim, lim + 1, lim + D // 2, lim + D - 1, lim + D, 2 * lim - 1]))
+            for lev in levs:
+                if lev <= 0:
+                    continue
+                for side in ("buy", "sell"):
+                    for margin in (1000, 37):
+                        ops = [block(15), opn("tr1", side, margin, lev, funds=margin if native else 0),
+                               query("engine", "margin_ratio", dict(vamm="vamm1", trader="tr1"))]
+                        out.append(dict(id="c05-%d" % k, deploy=dep(coll, engine=dict(imr=imr, mmr=mmr)), ops=ops))
+                        k += 1
+    # withdrawals around the free-collateral and bad-debt boundaries
+    rng = random.Random(seed + 5)
+    for j in range(60 if tier == "quick" else 400):
+        native = rng.random() < 0.3
+        m = rng.choice([500, 1000, 2000])
+        lev = rng.choice([200, 500, 1000])
+        ops = [block(15), opn("tr1", rng.choice(["buy", "sell"]), m, lev, funds=m if native else 0),
+               opn("tr2", rng.choice(["buy", "sell"]), rng.choice([300, 1500, 3000]), 1000, funds=0), block(rng.choice([15, 901]))]
+        if native:
+            ops[2]["funds"] = ops[2]["a"]["margin"]
+        for _ in range(rng.randint(1, 4)):
+            amt = rng.choice([1, m // 10, m // 2, m - 1, m, m + 1, rng.randint(1, m)])
+            if rng.random() < 0.3:
+                ops.append(tx("engine", "deposit_margin", "tr1", dict(vamm="vamm1", amount=amt), funds=amt if native else 0))
+            else:
+                ops.append(tx("engine", "withdraw_margin", "tr1", dict(vamm="vamm1", amount=amt)))
+            ops.append(query("engine", "free_collateral", dict(vamm="vamm1", trader="tr1")))
+        out.append(dict(id="c05w-%d" % j, deploy=dep("native" if native else "cw20", engine=dict(imr=rng.choice([5, 10]), mmr=5)), ops=ops))
+    return out
+
+def spot_after(trades, x=100000, y=10000):
+    """rough constant-product price (scaled by D) after quote trades [(+/-quote)] -- input selection only"""
+    k = x * y
+    for q in trades:
+        x += q
+    return x * x * D // k
+
+def c06(tier, seed):
+    """liquidations across maintenance, partial ratio, fee (incl. zero / dust) and oracle spread"""
+    out = []
+    k = 0
+    pushes = [3000, 4500, 5200, 6000, 8000, 12000, 30000] if tier == "quick" else [2500, 3000, 3500, 4000, 4500, 4800, 5000, 5200, 5500, 6000, 7000, 8000, 10000, 12000, 20000, 30000]
+    for coll in ("cw20", "native"):
+        native = coll == "native"
+        for plr in (0, 25, 50, 100):
+            for liqfee in (0, 1, 5, 10):
+                for push in pushes:
+                    for vside in ("buy", "sell"):
+                        pside = "sell" if vside == "buy" else "buy"
+                        ops = [block(15), opn("tr1", vside, 2500, 1000, funds=2500 if native else 0),
+                               opn("tr2", pside, push // 10, 1000, funds=push // 10 if native else 0), block(901),
+                               query("engine", "margin_ratio", dict(vamm="vamm1", trader="tr1")),
+                               liq("liq", "tr1"), block(15), liq("tr3", "tr1"), close("tr1")]
+                        out.append(dict(id="c06-%d" % k, deploy=dep(coll, engine=dict(plr=plr, liqfee=liqfee)), ops=ops))
+                        k += 1
+    # oracle spread sweep: victim under water at the vAMM price, oracle placed s% away from spot
+    spreads = [-1200, -1100, -1050, -1000, -950, 900, 950, 1000, 1025, 1050, 1075, 1100, 1112, 1125, 1200]
+    for vside in ("buy", "sell"):
+        pside = "sell" if vside == "buy" else "buy"
+        for push in (4500, 5200, 6000, 8000):
+            sgn = 1 if vside == "buy" else -1
+            sp = spot_after([sgn * 25000, -sgn * push])
+            for s_bp in spreads:
+                oracle = sp * 10000 // (10000 + s_bp)
+                for feed in ("mock", "real"):
+                    ops = [block(15), opn("tr1", vside, 2500, 1000), opn("tr2", pside, push // 10, 1000), block(901),
+                           tx("feed", "append_price", "owner", dict(key="ETH", price=oracle, t=100916)),
+                           query("vamm1", "is_over_spread_limit", {}),
+                           query("engine", "margin_ratio", dict(vamm="vamm1", trader="tr1")),
+                           liq("liq", "tr1")]
+                    out.append(dict(id="c06s-%d" % k, deploy=dep("cw20", feed=feed, engine=dict(plr=0, liqfee=5)), ops=ops))
+                    k += 1
+    # dust positions: the penalty / fee amounts round to zero although the ratios are non-zero
+    for plr in (0, 25, 100):
+        for m in (5, 15, 40):
+            ops = [block(15), opn("tr1", "buy", m, 200), opn("tr2", "sell", 3000, 1000), block(901),
+                   tx("feed", "append_price", "owner", dict(key="ETH", price=490, t=100916)),
+                   liq("liq", "tr1"), block(15), liq("liq", "tr1")]
+            out.append(dict(id="c06d-%d" % k, deploy=dep("cw20", engine=dict(plr=plr, liqfee=5)), ops=ops))
+            k += 1
+    return out
+
+def c07(tier, seed):
+    """vault drained by another trader's profit (prepaid bad debt outstanding, tiny vault) before a liquidation"""
+    out = []
+    k = 0
+    for coll in ("cw20", "native"):
+        native = coll == "native"
+        for side in ("sell", "buy"):
+            other = "buy" if side == "sell" else "sell"
+            for small in (0, 2, 20, 200, 2000):
+                for plr in (0, 25):
+                    for ifb in (5000 * D, 100 * D):
+                        ops = [block(15), opn("tr1", side, 2000, 1000, funds=2000 if native else 0),
+                               opn("tr2", side, 2000, 1000, funds=2000 if native else 0), block(15), close("tr1")]
+                        if small:
+                            ops.append(opn("tr3", side, small, 1000, funds=small if native else 0))
+                        ops += [block(901), query("engine", "margin_ratio", dict(vamm="vamm1", trader="tr2")),
+                                liq("liq", "tr2"), block(15), liq("liq", "tr2")]
+                        out.append(dict(id="c07-%d" % k, deploy=dep(coll, ifund_bal=ifb, engine=dict(plr=plr)), ops=ops))
+                        k += 1
+    return out
+
 def for_property(pid, tier, seed):
     if pid == "C09":
         return [("c09matrix", c09(tier, seed))]
@@ -327,11 +439,15 @@ def for_property(pid, tier, seed):
     if pid == "C20":
         return [("c20config", c20(tier, seed))]
     if pid == "C08":
-        return [("c08sweeps", c08(tier, seed))]
+        return [("c08sweeps", c08(tier, seed)), ("c06liq", c06(tier, seed)), ("c07vault", c07(tier, seed))]
     if pid == "C16":
-        return [("c16orderings", c16(tier, seed))]
+        return [("c16orderings", c16(tier, seed)), ("c06liq", c06(tier, seed))]
     if pid == "C03":
         return [("c03fpool", c03(tier, seed)), ("c08sweeps", c08(tier, seed))]
-    if pid in ("C02", "C06", "C07", "C10", "C12", "C04", "C05"):
-        return [("c08sweeps", c08(tier, seed)), ("c16orderings", c16(tier, seed))]
+    if pid == "C05":
+        return [("c05lev", c05(tier, seed)), ("c08sweeps", c08(tier, seed))]
+    if pid in ("C02", "C06", "C07", "C08x"):
+        return [("c06liq", c06(tier, seed)), ("c07vault", c07(tier, seed)), ("c08sweeps", c08(tier, seed)), ("c16orderings", c16(tier, seed))]
+    if pid in ("C10", "C12", "C04"):
+        return [("c08sweeps", c08(tier, seed)), ("c16orderings", c16(tier, seed)), ("c07vault", c07(tier, seed))]
     return []
